@@ -612,6 +612,8 @@ fn c01(tier: &str) -> Vec<String> {
         }
         // delimiter-bearing strings: only the construction rule applies
         v.push(format!("fmt01:row={}:form=try:tier=quick:dirty=1", row));
+        // strings that begin or end with white space
+        v.push(format!("fmt01:row={}:form={}:tier=quick:ws=1", row, if row % 2 == 0 { "try" } else { "send" }));
         // every line length up to ~1.3 KiB, then around the powers of two up to 128 KiB
         v.push(format!("fmtlen:row={}:part=key:max={}", row, if tier == "thorough" { 2200 } else { 1100 }));
         // clients with default tags / container (every list of up to two default tags, among them a
@@ -643,6 +645,10 @@ fn c03(tier: &str) -> Vec<String> {
         v.push(format!("calls:part=seq:tier={}:chunk={}:of=30", tier, i));
     }
     v.push("calls:part=reentrant".to_string());
+    // the text handed to the sink is the text returned, also when it ends in white space
+    for row in [0, 4, 9, 10, 13, 17, 21] {
+        v.push(format!("fmt01:row={}:form=try:tier=quick:ws=1", row));
+    }
     // two or three threads on one client, failures overlapping inside the error handler
     for prog in ["r.r", "r.i", "rr.r", "ri.ir", "r.o", "t.r", "r.r.r", "rt.tr"] {
         let p = if prog.len() >= 5 { ":P=3" } else { "" };
@@ -780,7 +786,7 @@ fn c17(_tier: &str) -> Vec<String> {
 }
 
 fn c20(tier: &str) -> Vec<String> {
-    let mut v: Vec<String> = ["strings", "numbers", "lists", "buffers", "queues", "addresses"].iter().map(|p| format!("sweep:part={}", p)).collect();
+    let mut v: Vec<String> = ["strings", "builders", "numbers", "lists", "buffers", "queues", "addresses"].iter().map(|p| format!("sweep:part={}", p)).collect();
     // the other engines run with overflow checks and debug assertions on and tag every panic C20
     for end in ends() {
         for cap in 0..=4 {
